@@ -105,7 +105,10 @@ def instance_code(label, prefix, model, layout="sym"):
         elif k == "bool":
             vals[f] = repr(bool(model.get(key)))
         elif k == "num":
-            vals[f] = "None" if "implicit" in bits else _num(model.get(key, 1), integer=(cname == "Proximity"))
+            if "parsed" in bits:
+                vals[f] = repr(str(model.get(key) or "0"))
+            else:
+                vals[f] = "None" if "implicit" in bits else _num(model.get(key, 1), integer=(cname == "Proximity"))
         elif k == "child":
             vals[f] = child_code(key, model, layout)
         else:
